@@ -40,7 +40,7 @@ CFG = {
     "modelled": ["parsing/compiler.rs compile_node/compile_expr/compile_kwargs for the statement language of Spec/Stmt.v (Model/Compile.v)",
                  "vm/interpreter.rs interpret (all 56 instructions), render_include, render_component (shape), render_to",
                  "vm/state.rs get_value, store_local/global, dump_context; vm/for_loop.rs ForLoop, iterators, loop.*"],
-    "assumptions": ["fuel 6000 steps per render in the model", "floats and bytes are not generated"],
+    "assumptions": ["fuel 6000 steps per render in the model (vm family), 20000 (ref family, compiled library on the VM)", "floats and bytes are not generated"],
     "harness_timeout": 1500,
 }
 
